@@ -81,6 +81,28 @@ def run(chk: Check, proj: Project) -> None:
     s4(chk, proj, w)
     s5(chk, proj, w)
     s6(chk, proj, w)
+    s7(chk, proj, w)
+
+
+def s7(chk: Check, proj: Project, w) -> None:
+    from . import C01
+
+    chk.borrow("S7", "a nested instance's placeholder survives every escaping step on its way to the page (it is safe HTML), otherwise the instance and its marked root elements never appear (shared with C01-S6)",
+               lambda sub: C01.s6(sub, proj, w), only=lambda o: "returns-safe-html" in o.construct)
+    chk.rule("S7b", "Component.id equals the marker during the WHOLE deferred render of the instance: the template is rendered (and the template_rendered signal sent) inside `with <component>._with_metadata(<this render's metadata>)`, not only the hook before it")
+    m, f = proj.func("component", "Component._gen_component_renderer.renderer")
+    chk.analysed(fkey(m, f))
+    rend = [c for c in calls(f) if isinstance(c.func, ast.Attribute) and c.func.attr == "render" and norm(c.func.value) == "template"]
+    sig = [c for c in calls(f) if isinstance(c.func, ast.Attribute) and c.func.attr == "send"]
+    if not rend:
+        chk.undecided("S7b", "component:renderer:template-rendered-under-metadata", m.loc(f), "template.render(...) not found in the deferred renderer")
+        return
+    for c in rend + sig:
+        under = [a for a in ancestors(c) if isinstance(a, ast.With) and any(isinstance(it.context_expr, ast.Call) and last_attr(it.context_expr.func) == "_with_metadata" for it in a.items)]
+        what = "template.render" if c in rend else "template_rendered.send"
+        chk.ob("S7b", f"component:renderer:{what}-under-metadata", m.loc(c), bool(under),
+               f"{what}(...) runs inside `with ..._with_metadata(metadata)`" if under else
+               f"`{short(enclosing_stmt(c))}` runs OUTSIDE the `_with_metadata` block: while the template renders, Component.id / .input (read by a callable in the context, a signal receiver, a slot function closing over the component) raise 'outside of rendering execution' or - for a re-entrant instance - report an outer render's id, which is not the id on the marker")
 
 
 def s6(chk: Check, proj: Project, w) -> None:
